@@ -421,6 +421,7 @@ func checkC16(r *Run) {
 
 	c16ValidPath(r, p.Fn("p9p:ValidPath"))
 	c16Normalize(r, p.Fn("p9p:NormalizePath"))
+	c16NormalizeFresh(r, p.Fn("p9p:NormalizePath"), "result")
 	c16ToWalk(r)
 	c16CreateName(r, p.Fn("p9p:CreateName"))
 	c16WalkName(r, p.Fn("p9p:WalkName"))
@@ -838,4 +839,32 @@ func c16ToWalk(r *Run) {
 		r.Check(derivesFrom(ret.Results[1], steps, 2), "result", "ToWalk: the steps returned are NormalizePath's", ret.Pos(), "the steps returned are not the normalised names")
 	}
 	r.Floor("result", n, 1, "success returns of ToWalk")
+}
+
+// c16NormalizeFresh: NormalizePath is functional ("effectively copies the path"): the slice it returns lives in storage
+// made by this call, never in the caller's argument — callers (cEnt.Walk) hand it the application's own name list.
+func c16NormalizeFresh(r *Run, fn *ssa.Function, rule string) {
+	if fn == nil {
+		r.Undecided(rule, "NormalizePath", token.NoPos, "anchor not found")
+		return
+	}
+	n := 0
+	for _, ret := range returnsOf(fn) {
+		if len(ret.Results) != 2 || isNilConst(ret.Results[0]) {
+			continue
+		}
+		n++
+		base := ret.Results[0]
+		for depth := 0; depth < 6; depth++ {
+			if sl, ok := base.(*ssa.Slice); ok {
+				base = sl.X
+				continue
+			}
+			break
+		}
+		_, fresh := base.(*ssa.MakeSlice)
+		r.Check(fresh, rule, "NormalizePath: the result is built in storage made by this call", ret.Pos(),
+			"the normalised list is a view of the caller's argument: normalising rewrites the caller's name list (a second walk with the same list sends different names)")
+	}
+	r.Floor(rule, n, 1, "success return of NormalizePath")
 }
